@@ -314,6 +314,18 @@ impl World {
                 if render_store(&a) != render_store(&b) { self.fail(format!("C10: refused {} changed the store", kind), ""); }
             } } }
         }
+        // C10 commit progress: the descriptor of a pending migration — as reported by its source (M) or by its
+        // destination (I) — must be accepted
+        if kind == "commit" && toks.len() >= 5 && (toks[4] == "M" || toks[4] == "I") {
+            if let Ok(cn) = ClusterName::try_from(toks[1]) { if let Some(c) = before.clusters.get(&cn) {
+                let e: u64 = toks[2].parse().unwrap_or(u64::MAX);
+                let pending = c.chunks.iter().flat_map(|ch| ch.migrating_slots.iter()).flat_map(|l| l.iter())
+                    .any(|m| m.is_migrating && m.meta.epoch == e && render_ranges(&m.range_list) == toks[3]);
+                if pending && !obs.starts_with("OK") {
+                    self.fail(format!("C10: the descriptor of a pending migration ({} {} tag {}) was not accepted: {}", toks[3], e, toks[4], obs), "");
+                }
+            } }
+        }
         if obs.starts_with("OK") && matches!(kind, "del_free" | "change_num" | "commit") {
             if let Ok(cn) = ClusterName::try_from(toks[1]) { if let (Some(b), Some(a)) = (before.clusters.get(&cn), store.clusters.get(&cn)) {
                 let kept: BTreeSet<String> = a.chunks.iter().map(|c| c.proxy_addresses[0].clone()).collect();
@@ -646,7 +658,7 @@ fn main() {
         g.big = false;
         // scale chains through the region where destinations already hold their final count
         if args.thorough {
-            run_scale_chain(&mut w, &mut g, 400, &[396, 368, 364, 100]);
+            run_scale_chain(&mut w, &mut g, 400, &[396, 368, 364]);
             run_scale_chain(&mut w, &mut g, 800, &[796]);
         } else {
             run_scale_chain(&mut w, &mut g, 64, &[60, 56, 28, 24, 8, 4, 16, 12]);
